@@ -358,6 +358,7 @@ def op_is_call(rec):
 
 def check(prop, tier, seed, into=None):
     v = into or Verdict(prop, tier, seed)
+    label_counts = {}
     tot = {"states": 0, "transitions": 0, "paths": 0, "traces": 0}
     for cfg in TIERS[tier]:
         maxsize, typed, pats, form, maxops = cfg
@@ -367,6 +368,8 @@ def check(prop, tier, seed, into=None):
         tot["states"] += res["distinct"]
         tot["transitions"] += res["generated"]
         edges = read_ndjson(res["files"]["edges.ndjson"])
+        for e_ in edges:
+            label_counts[e_["a"][0]] = label_counts.get(e_["a"][0], 0) + 1
         paths = build_paths(edges)
         tot["paths"] += len(paths)
         with mp.Pool(min(16, os.cpu_count() or 4)) as pool:
@@ -410,11 +413,15 @@ def check(prop, tier, seed, into=None):
     tot["traces"] = trace_stats["traces"]
     v.assumptions += ["CPython functools.lru_cache is the oracle for results, invocations and statistics (cache_discard has no counterpart: judged by the spec alone)",
                       "hashable arguments only; patterns are the 16 of the table in spec/Lru.tla"]
+    vac = dict(label_counts)
+    missing = [a for a in ["hit", "miss", "fail", "clear", "discard"] if not vac.get(a)]
+    if missing:
+        raise MachineryError(f"vacuity guard: actions never taken in the explored graphs: {missing}")
     return v.finish({
         "states": tot["states"], "transitions": tot["transitions"],
         "traces_validated_against_impl": tot["paths"] + tot["traces"],
         "edge_cover_paths": tot["paths"], "random_histories_validated_by_TLC": tot["traces"], "trace_validation": trace_stats,
-        "configs": [[str(x) for x in c] for c in TIERS[tier]], "exhaustive": True,
+        "configs": [[str(x) for x in c] for c in TIERS[tier]], "exhaustive": True, "vacuity_guard_actions_taken": vac,
         "evaluations": tot["paths"] + tot["traces"], "distinct_nontrivial": tot["paths"],
         "rule": "one replay per transition of the Lru state graph (shortest history reaching it + that operation + a drain touching every pattern), distinct by construction",
         "checker_cmd": "tlc spec/Lru.tla (graph) ; tlc -workers 1 spec/LruTrace.tla (TRACE_FILE=...)",
